@@ -3530,6 +3530,7 @@ def deltify_pack_objects(
     *,
     window_size: int | None = None,
     progress: Callable[..., None] | None = None,
+    object_format: "ObjectFormat | None" = None,
 ) -> Iterator[UnpackedObject]:
     """Generate deltas for pack objects.
 
@@ -3553,6 +3554,7 @@ def deltify_pack_objects(
         sorted_objs,
         window_size=window_size,
         progress=progress,
+        object_format=object_format,
     )
 
 
@@ -3594,6 +3596,7 @@ def deltas_from_sorted_objects(
     objects: Iterator[tuple[ShaFile, bytes | None]],
     window_size: int | None = None,
     progress: Callable[..., None] | None = None,
+    object_format: "ObjectFormat | None" = None,
 ) -> Iterator[UnpackedObject]:
     """Create deltas from sorted objects.
 
@@ -3632,14 +3635,15 @@ def deltas_from_sorted_objects(
                 winner_base = base_id
                 winner = delta
                 winner_len = sum(map(len, winner))
+        name = _object_name(o, object_format)
         yield UnpackedObject(
             o.type_num,
-            sha=o.sha().digest(),
+            sha=name,
             delta_base=winner_base,
             decomp_len=winner_len,
             decomp_chunks=winner,
         )
-        possible_bases.appendleft((o.sha().digest(), o.type_num, raw_bytes))
+        possible_bases.appendleft((name, o.type_num, raw_bytes))
         while len(possible_bases) > window_size:
             possible_bases.pop()
 
@@ -3653,6 +3657,7 @@ def pack_objects_to_data(
     delta_window_size: int | None = None,
     ofs_delta: bool = True,
     progress: Callable[..., None] | None = None,
+    object_format: "ObjectFormat | None" = None,
 ) -> tuple[int, Iterator[UnpackedObject]]:
     """Create pack data from objects.
 
@@ -3677,6 +3682,7 @@ def pack_objects_to_data(
                 iter(objects),  # type: ignore
                 window_size=delta_window_size,
                 progress=progress,
+                object_format=object_format,
             ),
         )
     else:
@@ -3684,9 +3690,9 @@ def pack_objects_to_data(
         def iter_without_path() -> Iterator[UnpackedObject]:
             for o in objects:
                 if isinstance(o, tuple):
-                    yield full_unpacked_object(o[0])
+                    yield full_unpacked_object(o[0], object_format)
                 else:
-                    yield full_unpacked_object(o)
+                    yield full_unpacked_object(o, object_format)
 
         return (count, iter_without_path())
 
@@ -3720,22 +3726,35 @@ def generate_unpacked_objects(
         objects_to_delta = container.iterobjects_subset(
             todo.keys(), allow_missing=False
         )
-        sorted_objs = sort_objects_for_delta((o, todo[o.id]) for o in objects_to_delta)
+        sorted_objs = sort_objects_for_delta(
+            (o, todo[ObjectID(o.get_id(o.object_format))]) for o in objects_to_delta
+        )
         yield from deltas_from_sorted_objects(
             sorted_objs,
             window_size=delta_window_size,
             progress=progress,
+            object_format=getattr(container, "object_format", None),
         )
     else:
         for oid in todo:
             yield full_unpacked_object(container[oid])
 
 
-def full_unpacked_object(o: ShaFile) -> UnpackedObject:
+def _object_name(o: ShaFile, object_format: "ObjectFormat | None") -> bytes:
+    """Binary name of ``o`` in ``object_format`` (ShaFile.sha() alone is always SHA-1)."""
+    if object_format is None or object_format.oid_length == 20:
+        return o.sha().digest()
+    return o.sha(object_format).digest()
+
+
+def full_unpacked_object(
+    o: ShaFile, object_format: "ObjectFormat | None" = None
+) -> UnpackedObject:
     """Create an UnpackedObject from a ShaFile.
 
     Args:
       o: ShaFile object to convert
+      object_format: Object format the name is computed in (default SHA-1)
 
     Returns:
       UnpackedObject with full object data
@@ -3745,7 +3764,7 @@ def full_unpacked_object(o: ShaFile) -> UnpackedObject:
         delta_base=None,
         crc32=None,
         decomp_chunks=o.as_raw_chunks(),
-        sha=o.sha().digest(),
+        sha=_object_name(o, object_format),
     )
 
 
@@ -3818,7 +3837,12 @@ def write_pack_objects(
       compression_level: the zlib compression level to use
     Returns: Dict mapping id -> (offset, crc32 checksum), pack checksum
     """
-    pack_contents_count, pack_contents = pack_objects_to_data(objects, deltify=deltify)
+    pack_contents_count, pack_contents = pack_objects_to_data(
+        objects,
+        deltify=deltify,
+        delta_window_size=delta_window_size,
+        object_format=object_format,
+    )
 
     return write_pack_data(
         write,
@@ -4728,7 +4752,7 @@ class Pack:
                 allow_missing=allow_missing,
                 resolve_ext_ref=self.resolve_ext_ref,
             )
-            if uo.id in shas
+            if uo.get_id(self.object_format) in shas
         )
 
     def iter_unpacked_subset(
